@@ -102,6 +102,8 @@ func GenSyntax(r *rand.Rand, o SynGenOpts) *Grammar {
 		g = s.longKeyed()
 	case "lasubset":
 		g = s.laSubset()
+	case "rrwide":
+		g = s.rrWide()
 	case "wide":
 		g = s.wide()
 	case "cyclic":
@@ -252,6 +254,29 @@ func (s *synGen) lr1NotLalr() *Grammar {
 	a := &NTDef{Head: "A", Alts: []SAlt{alt(t[2])}}
 	b := &NTDef{Head: "B", Alts: []SAlt{alt(t[2])}}
 	return &Grammar{NTs: []*NTDef{top, a, b}}
+}
+
+// rrWide: a reduce/reduce conflict among productions whose numbers straddle 9/10 (one and two
+// digits): "the earliest production" is a comparison of numbers, not of their spellings.
+func (s *synGen) rrWide() *Grammar {
+	s.pickTerminals(4)
+	t := s.terms
+	n := 5 + s.r.Intn(4)
+	top := &NTDef{Head: "S"}
+	g := &Grammar{NTs: []*NTDef{top}}
+	for i := 0; i < n; i++ {
+		h := fmt.Sprintf("N%d", i)
+		tail := t[1]
+		if i%3 == 2 {
+			tail = t[2]
+		}
+		top.Alts = append(top.Alts, alt(nt(h), tail))
+		g.NTs = append(g.NTs, &NTDef{Head: h, Alts: []SAlt{alt(t[0])}})
+	}
+	if s.r.Intn(2) == 0 {
+		top.Alts = append(top.Alts, alt(t[3], nt("S")))
+	}
+	return g
 }
 
 // laSubset: the same nonterminal in two contexts, the look-aheads of one a strict subset of
